@@ -528,7 +528,15 @@ fn build_history(e: &mut Ent) -> Vec<Op> {
             }
             15 if e.chance(1, 3) => {
                 let base = e.pick(&[TCR, TCSR, TCORA, TCORB, TCNT]);
-                let a = match e.below(4) {
+                let a = match e.below(6) {
+                    // the same offset in the other register block (H'FFFF20 + k <-> H'FEE000 + k)
+                    4 | 5 => {
+                        if base >= 0xffff20 {
+                            0xfee000 + (base - 0xffff20)
+                        } else {
+                            0xffff20 + (base - 0xfee000)
+                        }
+                    }
                     0 => base.wrapping_add(0x100 * (1 + e.below(4))),
                     1 => base.wrapping_add(0x0100_0000 * (1 + e.below(255))),
                     2 => base ^ (1u32 << (8 + e.below(24))),
